@@ -177,6 +177,8 @@ def wigm_options(d):
             o['precision'] = d.int(0, 12)
     elif a == 4:
         o['arithmetic'] = 'integer'
+        if d.p(30):
+            o['precision'] = d.int(0, 6)        # forced to 0 by the arithmetic whatever is asked
     elif a <= 6:
         o['arithmetic'] = 'rational'
     else:
@@ -191,7 +193,7 @@ def wigm_options(d):
     if d.p(30):
         o['defeat_batch'] = 'zero' if d.p(80) else 'none'
     if d.p(15):
-        o['display'] = d.int(0, 24)
+        o['display'] = d.int(0, 2) if d.p(40) else d.int(0, 24)      # presentation only: must not reach the count
     return o
 
 
@@ -240,7 +242,7 @@ def meek_options(d, stratum='S1', rational=True):
     if d.p(30):
         o['defeat_batch'] = 'none' if d.p(70) else 'safe'
     if d.p(10):
-        o['display'] = d.int(0, 24)
+        o['display'] = d.int(0, 2) if d.p(40) else d.int(0, 24)
     return o
 
 
@@ -261,7 +263,7 @@ def election_cases(draw, tier='quick', rules=model.ALL_RULES, equal_for_meek=Fal
     size = SIZES[tier]
     case = election_core(d, size,
                          equal=equal_for_meek and rule in ('meek', 'warren') and d.p(50),
-                         undeclared=undeclared_for_mpls and rule == 'mpls',
+                         undeclared=undeclared_for_mpls and (rule == 'mpls' or d.p(12)),    # only mpls gives the flag a meaning; the others must ignore it
                          withdrawn=withdrawn, min_cand=min_cand, chains=chains)
     case['rule'] = rule
     case['options'] = {} if default_options else rule_options(d, rule, stratum, rational)
@@ -323,8 +325,10 @@ def render_layout(case, choices):
     nicks = case.get('nicks')
     out = []        # (token, inside_quote_continuation)
 
+    numeric = [False]       # options written before [nick ...] can only use numbers
+
     def cand(c):
-        if nicks and ch.next(3) != 0:
+        if nicks and not numeric[0] and ch.next(3) != 0:
             return nicks[c - 1]
         return str(c)
 
@@ -357,8 +361,13 @@ def render_layout(case, choices):
         opts.append(('withdrawn', lambda: [cand(c) for c in wopt]))
     if case.get('file_options'):
         opts.append(('droop', lambda: list(case['file_options'])))
-    # [nick ...] must come before any use of a nickname
+    # [nick ...] must come before any use of a nickname - an option written with numbers may precede it
     if nicks:
+        if opts and ch.next(3) == 0:
+            name, items = opts.pop(ch.next(len(opts)))
+            numeric[0] = True
+            option(name, items())
+            numeric[0] = False
         option('nick', list(nicks))
     k = ch.next(max(1, len(opts)))
     opts = opts[k:] + opts[:k]
@@ -368,8 +377,8 @@ def render_layout(case, choices):
             tok('-%d' % c)
     for name, items in opts:
         its = items()
-        if name in ('withdrawn', 'undeclared') and len(its) >= 2 and ch.next(2):
-            option(name, its[:1])       # the same option may be given more than once
+        if name in ('withdrawn', 'undeclared', 'droop') and len(its) >= 2 and ch.next(2):
+            option(name, its[:1])       # the same option may be given more than once ([droop ...] groups accumulate)
             option(name, its[1:])
         else:
             option(name, its)
@@ -447,6 +456,34 @@ def fractional_landing_case(d):
     opts = {'arithmetic': 'fixed', 'precision': p} if rule == 'wigm' else {}
     return dict(ncand=3, nseats=2, withdrawn=[], undeclared=[], tie=d.perm([1, 2, 3]), ballots=ballots, title='T', names=None,
                 rule=rule, options=opts)
+
+
+def astronomic(d, case):
+    """the same election with an electorate beyond 2^53 ballots (multipliers are arbitrary integers in a ballot file):
+    any float or fixed-width path in a count shows as a wrong quota or tally"""
+    K = 10 ** d.int(15, 40)
+    for b in case['ballots']:
+        b[0] = b[0] * K + (d.int(0, 9) if d.p(50) else 0)
+    return case
+
+
+def near_tie_case(d):
+    """two candidates with equal first preferences receive slightly different numbers of low-valued papers from a narrow
+    surplus: their tallies then differ by a few thousandths - strictly ordered in exact arithmetic, equal or not under a
+    guarded tolerance depending on the precision.  (wigm / meek / warren; the caller sets the arithmetic options.)"""
+    rule = d.choice(['wigm', 'wigm', 'meek', 'warren'])
+    nc = d.int(4, 5)
+    ids = d.perm(range(1, nc + 1))
+    A, B, C, Dd = ids[:4]
+    X = d.choice([30, 100, 300, 1000, 3000]) + d.int(0, 20)
+    Bv = X + d.int(5, 40)
+    Av = X + Bv // 2 + d.int(1, 4)
+    m1, m2 = d.sample(range(1, 7), 2)
+    ballots = [[m1, [[A], [C]]], [m2, [[A], [Dd]]], [Av - m1 - m2, [[A], [B]]], [Bv, [[B]]], [X, [[C]]], [X, [[Dd]]]]
+    if d.p(40):
+        ballots = d.perm(ballots)
+    return dict(ncand=nc, nseats=2, withdrawn=[], undeclared=[], tie=d.perm(range(1, nc + 1)), ballots=ballots, title='T', names=None,
+                rule=rule, options={})
 
 
 def narrow_chain_case(d, statutory_only=False):
